@@ -412,6 +412,7 @@ func TestC07(t *testing.T) {
 // ---- C07 (process level): SIGINT/SIGTERM to the real binary while a request is held ----
 
 func runC07Proc(c *fw.Case) {
+	c.Probe("process-level-case (real desync binary)")
 	cmdKind := c.Draw(6, "proc.cmd")
 	names := []string{"extract", "extract --in-place", "chop", "cache", "make", "untar -i"}
 	sig := []syscall.Signal{syscall.SIGINT, syscall.SIGTERM}[c.Draw(2, "proc.sig")]
